@@ -15,6 +15,13 @@ timeout 0, or k/64) and by ``task.cancel()`` of a pending ``recv_packet()`` task
 An interrupted receive (TimeoutError, scope caught the cancellation, iterator stopped, task cancelled) is not an outcome and must not
 consume a datagram: the receive clause below is unchanged and therefore covers it (a datagram eaten by an interrupted call shifts every
 later outcome); such a loss is reported under its own clause/key.
+asyncio endpoints, a quarter of the runs with sends: 1..n ``send_packet`` calls FAIL IN THE KERNEL (the socket's send() raises EMSGSIZE /
+ECONNREFUSED; asyncio hands that to ``error_received()``), the sender optionally starting after the j-th scripted datagram and the
+receiver optionally waiting for the sender, i.e. "datagrams queued in the endpoint, then a failing send, then the receives".  The error
+may come out of a later receive call or of the send itself, at most once per failed send; the receive clause is unchanged (a failed
+send consumes no received datagram: own clause/key when it does).
+The line family also has ``StringLineSerializer(keep_end=True)`` entries whose packets end with / contain / are the newline sequence
+(LF, CR, CRLF): in one-shot mode with keep_end=True the newline is part of the packet value and must survive the round trip.
 
 Oracle (exactly the property statement):
   send     every send_packet produced exactly one send()/sendto() on the socket (SimSocket.sent_log) and that payload, decoded by
@@ -34,6 +41,7 @@ import asyncio
 import dataclasses
 import errno
 import math
+import os
 import socket as _socket
 from typing import Any, Generator
 
@@ -141,6 +149,37 @@ _ENTRIES = list(_ENTRIES) + [
     _Entry(name="local/lenprefix-default-oneshot", family="local-default", make=lambda limit=None, hostile=False: LenPrefixed(), gen=_gen_lenprefixed, domain="bytes of length 0..300"),
 ]
 
+
+# ---- StringLineSerializer(keep_end=True) in one-shot mode: the end-of-line sequence is part of the packet VALUE there (deserialize()
+# does not strip it), so "status" and "status\n" are two distinct packets and both must survive send_packet -> datagram -> recv_packet.
+# The shared matrix generates lines for the stream domain (never containing the separator); these derived entries add the packets
+# that only the one-shot domain has: ending with the newline sequence (once or twice), containing it, or consisting of it only.
+def _line_keep_end_oneshot(base: Any) -> Any:
+    sep_text = base.sep.decode("ascii")
+    other = "\n" if sep_text == "\r" else "\r"  # a lone CR / LF that is not the configured sequence
+
+    def gen(rng, size: str = "small", mode: str = "oneshot") -> str:
+        s = base.gen(rng, "small", mode)
+        shape = rng.randrange(8)
+        if shape <= 2:
+            return s + sep_text
+        if shape == 3:
+            return s + sep_text * 2
+        if shape == 4:
+            return sep_text
+        if shape == 5:
+            return s + sep_text + base.gen(rng, "small", mode) + sep_text
+        if shape == 6:
+            return s + other + sep_text
+        return s
+
+    return dataclasses.replace(base, name=base.name + "/oneshot-trailing-newline", gen=gen, domain="any str of the encoding, most of them ending with the newline sequence (one-shot mode, keep_end=True: the newline is part of the value)")
+
+
+_LINE_KEEP_END = [_line_keep_end_oneshot(e) for e in _ENTRIES if e.family == "line" and "keep_end=1" in e.name and getattr(e, "sep", None)]
+_ENTRIES = list(_ENTRIES) + _LINE_KEEP_END
+
+
 class RawBytes(AbstractPacketSerializer[bytes, bytes]):
     """identity: the cheapest possible serializer, used for the "jumbo" size class (payloads at the limit of UDP)"""
 
@@ -184,7 +223,13 @@ RULE = (
     "t in {0, 1/64, 2/64, 5/64}; AsyncUDPNetworkClient.iter_received_packets() with the default timeout 0 or a k/64 budget; task.cancel() "
     "of a pending recv_packet() task after {0, 1, 2, 5}/64 s plus 0-3 loop iterations, i.e. also in the iteration right after the one in "
     "which the datagram arrived): an interrupted call is no outcome and must consume no datagram (own clause/key "
-    "recv/lost-by-interrupted-receive); in a quarter-to-half of the runs 1-3 pending socket errors (ECONNREFUSED) interleaved with the queued "
+    "recv/lost-by-interrupted-receive); asyncio endpoints, a quarter of the runs with sends: send_packet calls that fail in the kernel "
+    "(EMSGSIZE / ECONNREFUSED from the socket's send(), one chosen send or each with p=1/2), sender start delayed until after the j-th "
+    "scripted datagram and/or receiver started after the sender so that received datagrams are queued in the endpoint when the send "
+    "fails: the error may be reported by a later receive or by the send itself, at most one report per injected error "
+    "(recv/socket-error-reported-twice), delivered datagrams still yield exactly one outcome each (recv/lost-after-failed-send), "
+    "failed sends are exempt from the one-datagram-per-send clause; line family: + StringLineSerializer(keep_end=True) entries whose "
+    "one-shot packets end with / contain / are the newline sequence (LF, CR, CRLF); in a quarter-to-half of the runs 1-3 pending socket errors (ECONNREFUSED) interleaved with the queued "
     "datagrams (asyncio: scenarios without sends; blocking: a send may report the error, a send that returns normally must have "
     "produced its datagram); 1 run in 16 uses the jumbo size class (identity serializer, 65500..65527-byte payloads, AF_INET6); EAGAIN/EINTR on sendto/recvfrom; selector hold/reorder/spurious readiness. Packet domain = the "
     "entry's one-shot domain ('' is a valid line packet in one-shot mode; on asyncio endpoints it is generated only when "
@@ -274,6 +319,24 @@ def _short(x: Any, n: int = 160) -> str:
 
 
 # ================================================================================================ scenario
+class _SendFaults:
+    """socket fault plan: the next send()/sendto() of the socket fails with `fail_next` (armed by the sender right before one
+    send_packet call); everything else is delegated to the optional inner CallFaults plan"""
+
+    def __init__(self, world: World, inner: Any = None):
+        self.world = world
+        self.inner = inner
+        self.fail_next: int | None = None
+
+    def __call__(self, sock: SimSocket, op: str) -> Any:
+        if op == "sendto" and self.fail_next is not None:
+            code, self.fail_next = self.fail_next, None
+            self.world.fault("errno_" + errno.errorcode[code].lower())
+            self.world.log("sendfail", sock.label, code)
+            return (ConnectionRefusedError if code == errno.ECONNREFUSED else OSError)(code, os.strerror(code))
+        return self.inner(sock, op) if self.inner is not None else None
+
+
 class Scenario:
     def __init__(self, world: World, engine: str, variant: str):
         self.world = world
@@ -377,6 +440,34 @@ class Scenario:
                 self.errors.append(self.script[j]["t"] + (0, 0, 1, 3)[world.choose("err_lag", 4)] / 64.0)
             self.errors.sort()
 
+        # ---- asyncio engine: send_packet calls that FAIL IN THE KERNEL (EMSGSIZE, ECONNREFUSED raised by the socket's send()).
+        # asyncio's datagram transport reports such an error through protocol.error_received(), the datagram is gone (by design of
+        # that transport) and the error comes out of a later receive call - or of the send itself: both are accepted.  What the
+        # property demands is unchanged: every datagram delivered to the socket still yields exactly one outcome (in order), and one
+        # failed send accounts for at most one error report.  The interesting order is "datagrams already queued in the endpoint,
+        # then the failing send, then the receives": the sender may start late (tx_start) and the receiver may wait for it.
+        self.send_fail: dict[int, int] = {}  # index in self.sends -> errno
+        self.failed_sends: list[int] = []  # those that actually met the injected error
+        self.error_reports = 0  # OSError outcomes of receive calls + injected errors raised by send_packet itself
+        self.errors_fired = 0
+        self.tx_start = 0.0
+        self.rx_after_tx = False
+        self.send_plan: _SendFaults | None = None
+        if engine == "aio" and self.sends:
+            sf = world.choose("send_fail", 4)  # 0, 1: none | 2: one send | 3: every send with probability 1/2
+            if sf == 2:
+                self.send_fail[world.choose("send_fail_at", len(self.sends))] = 0
+            elif sf == 3:
+                for i in range(len(self.sends)):
+                    if world.choose("send_fail_i", 2):
+                        self.send_fail[i] = 0
+            for i in self.send_fail:
+                self.send_fail[i] = (errno.EMSGSIZE, errno.ECONNREFUSED)[world.choose("send_fail_errno", 2)]
+            if self.send_fail:
+                j = world.choose("tx_after", len(self.script) + 1)  # 0: at once | j: just after the j-th scripted datagram was emitted
+                self.tx_start = self.script[j - 1]["t"] + (1, 2, 10)[world.choose("tx_after_lag", 3)] / 64.0 if j else 0.0
+                self.rx_after_tx = bool(world.choose("rx_after_tx", 2))
+
         # ---- swarm fault configuration
         self.loss_den = draw_rate(world, "sw.loss", (0, 0, 8, 3))
         self.dup_den = draw_rate(world, "sw.dup", (0, 0, 8, 3))
@@ -398,7 +489,11 @@ class Scenario:
         self.pending = 0  # deliveries scheduled and not yet executed
         self.max_delay = 0.0
         net.dgram_policy = self._policy
-        if self.eagain_den or self.eintr_den:
+        if self.send_fail:
+            # no spurious EAGAIN on sendto here: each send_packet is exactly one socket call, so "the next send() fails" is exact
+            inner = CallFaults(world, self.eagain_den, self.eintr_den, ops=("recvfrom",)) if self.eagain_den or self.eintr_den else None
+            self.lib.fault_plan = self.send_plan = _SendFaults(world, inner)
+        elif self.eagain_den or self.eintr_den:
             self.lib.fault_plan = CallFaults(world, self.eagain_den, self.eintr_den, ops=("recvfrom", "sendto"))
         self.issued = 0  # scripted datagrams handed to the network so far
         for item in self.script:
@@ -407,7 +502,7 @@ class Scenario:
             world.at(te, self._socket_error)
         self.outcomes: list[tuple] = []
         self.interrupted = 0  # receive calls that ended without an outcome because they were cancelled / timed out (asyncio modes)
-        world.notes.update(entry=entry.name, engine=engine, variant=variant, sends=len(self.sends), socket_errors=self.errors, script=[(s["kind"], len(s["data"]), s["t"], s["via"]) for s in self.script], loss_den=self.loss_den, dup_den=self.dup_den, delay_mode=self.delay_mode, rx_slow=self.rx_slow)
+        world.notes.update(entry=entry.name, engine=engine, variant=variant, sends=len(self.sends), socket_errors=self.errors, send_fail=sorted(self.send_fail.items()), tx_start=self.tx_start, rx_after_tx=self.rx_after_tx, script=[(s["kind"], len(s["data"]), s["t"], s["via"]) for s in self.script], loss_den=self.loss_den, dup_den=self.dup_den, delay_mode=self.delay_mode, rx_slow=self.rx_slow)
 
     # -------------------------------------------------- network side
     def _policy(self, src: SimSocket, dst: tuple, data: bytes) -> list[tuple[float, bytes]]:
@@ -443,6 +538,7 @@ class Scenario:
     def _socket_error(self) -> None:
         if not self.lib.sim_closed:
             self.lib.so_error = errno.ECONNREFUSED
+            self.errors_fired += 1
             self.world.fault("errno_econnrefused")
             self.world.log("sockerr", "lib")
 
@@ -452,6 +548,12 @@ class Scenario:
         if isinstance(exc, OSError) and exc.errno == errno.ECONNREFUSED and self.errors:
             self.world.log("outcome", "rx", "oserr")
             self.world.probe("socket-error-reported")
+            self.count_error_report("recv_packet", exc)
+            return
+        if isinstance(exc, OSError) and self.failed_sends and exc.errno in {self.send_fail[i] for i in self.failed_sends}:
+            self.world.log("outcome", "rx", "oserr-of-send", exc.errno)
+            self.world.probe("send-error-reported-by-receive")
+            self.count_error_report("recv_packet", exc)
             return
         self.world.fail(
             Violation(
@@ -460,6 +562,19 @@ class Scenario:
                 key=self.key("recv", f"unexpected-exception/{type(exc).__name__}"),
             )
         )
+
+    def count_error_report(self, where: str, exc: BaseException) -> None:
+        """asyncio engine: an injected socket error (pending ICMP error, failed send) is reported at most once"""
+        self.error_reports += 1
+        injected = self.errors_fired + len(self.failed_sends)
+        if self.engine == "aio" and self.error_reports > injected:
+            self.world.fail(
+                Violation(
+                    "one-error-report-per-socket-error",
+                    f"{self.ctx()}: {where} raised {type(exc).__name__}: {exc}: that is error report #{self.error_reports} for {injected} injected socket errors ({self.errors_fired} pending errors, failed sends {self.failed_sends}); outcomes so far {_short(self.outcomes, 400)}",
+                    key=self.key("recv", "socket-error-reported-twice"),
+                )
+            )
 
     def _emit(self, item: dict) -> None:
         self.issued += 1
@@ -508,13 +623,15 @@ class Scenario:
     def check_all_sends(self, done: int) -> None:
         """aio: the transport may buffer after EAGAIN, so the wire is compared once everything is flushed"""
         log = list(self.lib.sent_log)
-        want = [d for (_p, d) in self.sends[:done]]
+        # a send that met an injected kernel error transmitted nothing (asyncio handed the error to error_received())
+        sends = [pd for i, pd in enumerate(self.sends[:done]) if i not in self.failed_sends]
+        want = [d for (_p, d) in sends]
         if log == want:
-            for (p, d) in self.sends[:done]:
+            for (p, d) in sends:
                 self.check_send(p, d, [d])
             return
         if [d for d in want if d] == log:  # only the empty payloads are missing
-            p = next(p for (p, d) in self.sends[:done] if not d)
+            p = next(p for (p, d) in sends if not d)
             self.check_send(p, b"", [])
         raise Violation("send-one-datagram-per-packet", f"{self.ctx()}: {done} send_packet calls with payloads {_short(want, 400)} but the socket saw {_short(log, 400)}", key=self.key("send", "datagram-count"))
 
@@ -569,11 +686,19 @@ class Scenario:
     def _check_interrupted_lost(self, delivered: list[bytes], out: list[tuple], final: bool) -> None:
         """the receive clause failed in a run with interrupted receive calls: if the outcomes are exactly the delivered datagrams
         minus some of them, report it as what it is (same demand as the clause below, more specific key)"""
-        if not self.interrupted:
+        if not self.interrupted and not self.failed_sends:
             return
         lost = self._lost_indices(delivered, out, final)
         if lost is None:
             return
+        if self.failed_sends:
+            raise Violation(
+                "failed-send-consumes-no-received-datagram",
+                f"{self.ctx()}: {len(delivered)} datagrams were delivered to the socket, the send_packet calls #{self.failed_sends} failed in the kernel ({self.error_reports} error reports so far), "
+                f"and the datagrams #{lost} were never returned by any receive call although the receiver kept receiving: each of them yielded neither a packet nor a parse error\n"
+                f" delivered={_short(delivered, 600)}\n outcomes={_short(out, 600)}",
+                key=self.key("recv", "lost-after-failed-send"),
+            )
         raise Violation(
             "interrupted-receive-consumes-no-datagram",
             f"{self.ctx()}: {len(delivered)} datagrams were delivered to the socket, {self.interrupted} receive calls were interrupted (timeout / cancellation) and returned nothing, "
@@ -884,6 +1009,8 @@ def _h_aio(world: World, variant: str) -> None:
             return True
 
         async def receiver() -> None:
+            if sc.rx_after_tx:
+                await tx_done.wait()  # datagrams queue up in the endpoint while the sends (some of them failing) happen
             while True:
                 mode = rx_fixed if rx_style == 2 else (world.choose("rx_mode", len(_RX_MODES)) if rx_style == 1 else 0)
                 name = _RX_MODES[mode]
@@ -908,16 +1035,46 @@ def _h_aio(world: World, variant: str) -> None:
                     await asyncio.sleep(1 / 64.0)  # a poll that found nothing: come back later (virtual time must move on)
 
         async def sender() -> None:
-            for (p, d) in sc.sends:
-                if sc.tx_gap:
-                    await asyncio.sleep(sc.tx_gap)
-                else:
-                    await asyncio.sleep(0)
-                world.log("call", "send", len(d))
-                await ep.send_packet(p)
-                state["sent"] += 1
-                world.progress(1)
+            try:
+                if sc.tx_start:
+                    await asyncio.sleep(sc.tx_start)
+                for i, (p, d) in enumerate(sc.sends):
+                    if sc.tx_gap:
+                        await asyncio.sleep(sc.tx_gap)
+                    else:
+                        await asyncio.sleep(0)
+                    world.log("call", "send", len(d))
+                    code = sc.send_fail.get(i)
+                    plan = sc.send_plan
+                    if code is not None and plan is not None:
+                        plan.fail_next = code  # the kernel rejects the datagram of this send_packet
+                    raised: OSError | None = None
+                    try:
+                        await ep.send_packet(p)
+                    except OSError as exc:
+                        raised = exc
+                    fired = code is not None and plan is not None and plan.fail_next is None
+                    if plan is not None:
+                        plan.fail_next = None  # not consumed: b"" payload, nothing reached the socket (D10)
+                    if fired:
+                        sc.failed_sends.append(i)
+                        world.probe("send-failed-in-kernel")
+                        if sc.lib.dgram_q or len(sc.delivered()) > len(sc.outcomes):
+                            world.probe("send-failed-with-received-datagrams-pending")
+                    if raised is not None:
+                        if not (fired and raised.errno == code):
+                            raise raised
+                        # legitimate: the error of this datagram is reported by the send itself (then not again by a receive)
+                        world.log("outcome", "tx", "oserr", code)
+                        world.probe("send-raised-injected-error")
+                        sc.count_error_report("send_packet", raised)
+                    state["sent"] += 1
+                    if not fired:
+                        world.progress(1)
+            finally:
+                tx_done.set()
 
+        tx_done = asyncio.Event()
         rx = asyncio.create_task(receiver(), name="c05-rx")
         tx = asyncio.create_task(sender(), name="c05-tx")
         try:
@@ -930,7 +1087,7 @@ def _h_aio(world: World, variant: str) -> None:
             while len(sc.outcomes) < len(sc.delivered()) and world.now < deadline:
                 await asyncio.sleep(1 / 64.0)
             for _ in range(8):  # flush a transport buffer left by an injected EAGAIN on sendto
-                if len(sc.lib.sent_log) >= sum(1 for (_p, d) in sc.sends if d):
+                if len(sc.lib.sent_log) >= sum(1 for i, (_p, d) in enumerate(sc.sends) if d and i not in sc.failed_sends):
                     break
                 await asyncio.sleep(1 / 64.0)
             await asyncio.sleep(2 / 64.0)
